@@ -567,7 +567,9 @@ class ExecMixin:
         if k == "char":
             return Z(t, st.fresh(name, Int))
         if k == "arr":
-            return Arr(st.fresh(name + "_a", z3.ArraySort(Int, Int)), st.fresh(name + "_n", Int))
+            n = st.fresh(name + "_n", Int)
+            st.assume(n >= 0)       # a list has a non-negative length
+            return Arr(st.fresh(name + "_a", z3.ArraySort(Int, Int)), n)
         if k in ("none", "unit"):
             return NONE
         if k == "any":
